@@ -111,3 +111,77 @@ Print Assumptions gname_eqb_refl.
 Print Assumptions gname_eqb_sym.
 Print Assumptions gname_eqb_trans.
 Print Assumptions gname_default.
+
+(* ---- the calls made on the Hasher (strengthened harness): "hash identically" for EVERY hasher ---- *)
+(* the call sequence refines the byte stream *)
+Check (hash_calls_bytes : forall t, calls_bytes (hash_calls t) = hash_stream t).
+(* equal terms make the same calls, hence get the same digest from any hasher (any state type, any transition) *)
+Check (eq_same_hash_calls : forall a b, term_eqb a b = true -> hash_calls a = hash_calls b).
+Check (eq_same_digest : forall (S : Type) (step : S -> hcall -> S) (s0 : S) a b,
+  term_eqb a b = true -> run_hasher step s0 a = run_hasher step s0 b).
+Check (hash_calls_ok_spec : forall t obs, hash_calls_ok t obs = true <-> obs = hash_calls t).
+Check (hash_calls_ok_eq : forall a b obs, term_eqb a b = true -> hash_calls_ok a obs = hash_calls_ok b obs).
+(* NsTerm hashes as the IRI it is equal to; splitting the write keeps the bytes and is rejected all the same *)
+Check (ns_hash_is_default : forall ns sfx other,
+  ns_iri_eqb ns sfx other = true -> ns_hash_calls ns sfx = hash_calls (Iri other)).
+Check (ns_split_same_bytes : forall ns sfx, calls_bytes (ns_split_calls ns sfx) = hash_stream (Iri (ns ++ sfx))).
+Check (ns_split_other_calls : forall ns sfx, hash_calls_ok (Iri (ns ++ sfx)) (ns_split_calls ns sfx) = false).
+(* non-vacuity: the byte-level checker accepts the split hash of <http://e/ab> = "http://e/" + "ab", the call-level
+   checker does not, and two boundary-sensitive hashers (length-mixing, word-at-a-time) do give other digests *)
+Example split_hash_example :
+  let ns := [104;116;116;112;58;47;47;101;47] in let sfx := [97;98] in
+  hash_ok (Iri (ns ++ sfx)) (calls_bytes (ns_split_calls ns sfx)) = true
+  /\ hash_calls_ok (Iri (ns ++ sfx)) (ns_split_calls ns sfx) = false
+  /\ hash_calls_ok (Iri (ns ++ sfx)) (ns_hash_calls ns sfx) = true
+  /\ fold_left lenmix_step (ns_split_calls ns sfx) 0 <> run_hasher lenmix_step 0 (Iri (ns ++ sfx))
+  /\ fold_left fx_step (ns_split_calls ns sfx) 0 <> run_hasher fx_step 0 (Iri (ns ++ sfx))
+  /\ run_hasher fx_step 0 (LitLang [97] [69;78]) = run_hasher fx_step 0 (LitLang [97] [101;110]).
+Proof. repeat split; vm_compute; congruence. Qed.
+
+Print Assumptions hash_calls_bytes.
+Print Assumptions eq_same_hash_calls.
+Print Assumptions eq_same_digest.
+Print Assumptions hash_calls_ok_spec.
+Print Assumptions hash_calls_ok_eq.
+Print Assumptions ns_hash_is_default.
+Print Assumptions ns_split_same_bytes.
+Print Assumptions ns_split_other_calls.
+
+(* ---- the string stashes: a stashed copy is the SAME term, whatever its text looks like ---- *)
+Check (copy_str_spec : forall st s, copy_str st s = (stash_add st s, s)).
+Check (copy_term_same : forall st t, snd (copy_term st t) = t).
+Check (copy_term_eqb : forall st t, term_eqb t (snd (copy_term st t)) = true).
+Check (copy_term_hash : forall st t, hash_calls (snd (copy_term st t)) = hash_calls t).
+Check (copy_terms_same : forall st ts, snd (copy_terms st ts) = ts).
+Check (copy_term_inj : forall st1 st2 a b, snd (copy_term st1 a) = snd (copy_term st2 b) -> a = b).
+Check (copy_term_idem : forall st t, copy_term (fst (copy_term st t)) t = (fst (copy_term st t), t)).
+(* the stash holds exactly the strings copied into it, each once *)
+Check (stash_content : forall st t x, In x (fst (copy_term st t)) <-> In x st \/ In x (term_strs t)).
+Check (stash_nodup : forall st t, NoDup st -> NoDup (fst (copy_term st t))).
+Check (stash_run_content : forall ts x, In x (fst (copy_terms [] ts)) <-> In x (flat_map term_strs ts)).
+Check (stash_run_nodup : forall ts, NoDup (fst (copy_terms [] ts))).
+Check (stash_run_ok_spec : forall ts copies len,
+  stash_run_ok ts copies len = true -> copies = ts /\ len = N.of_nat (length (fst (copy_terms [] ts)))).
+(* non-vacuity: <HTTP://e/a> and <http://e/a> are two terms and stay two terms (two strings) in one stash, in either
+   order; a copy with the scheme lower-cased is refused by the checker *)
+Example stash_example :
+  let up := Iri [72;84;84;80;58;47;47;101;47;97] in let lo := Iri [104;116;116;112;58;47;47;101;47;97] in
+  term_eqb up lo = false
+  /\ stash_run_ok [up; lo; LitDt [49] [72;84;84;80;58;47;47;101;47;97]; up] [up; lo; LitDt [49] [72;84;84;80;58;47;47;101;47;97]; up] 3 = true
+  /\ stash_run_ok [lo; up] [lo; up] 2 = true
+  /\ stash_run_ok [lo; up] [lo; lo] 2 = false
+  /\ stash_run_ok [lo; up] [lo; up] 1 = false.
+Proof. repeat split; vm_compute; reflexivity. Qed.
+
+Print Assumptions copy_str_spec.
+Print Assumptions copy_term_same.
+Print Assumptions copy_term_eqb.
+Print Assumptions copy_term_hash.
+Print Assumptions copy_terms_same.
+Print Assumptions copy_term_inj.
+Print Assumptions copy_term_idem.
+Print Assumptions stash_content.
+Print Assumptions stash_nodup.
+Print Assumptions stash_run_content.
+Print Assumptions stash_run_nodup.
+Print Assumptions stash_run_ok_spec.
